@@ -125,7 +125,16 @@ func (f *Fetcher) FetchData(ctx context.Context) (Data, error) {
 	return data, nil
 }
 
-// StoreCookie stores a cookie byte slice and appends it to the cached data.
+// maxStoredCookies is the number of cookies a client keeps, see RFC 8915,
+// section 5.7.
+const maxStoredCookies = 8
+
+// StoreCookie stores a cookie byte slice and appends it to the cached data,
+// unless the pool is full already (a server may send more cookies than it
+// was asked for).
 func (f *Fetcher) StoreCookie(cookie []byte) {
+	if len(f.data.Cookie) >= maxStoredCookies {
+		return
+	}
 	f.data.Cookie = append(f.data.Cookie, cookie)
 }
